@@ -27,8 +27,12 @@ def ppoly_cfgs(tier):
 def orders_for(nc, tier):
     """derivative orders to enumerate for a pinned coefficient count: all 0..nc-1, nc (beyond degree) -- quick tier samples"""
     ks = list(range(0, nc + 1))
-    if tier == 'quick' and len(ks) > 4:
-        ks = sorted(set([0, 1, nc - 1, nc])) if nc <= 8 else [0, nc - 1, nc]
+    if tier == 'quick':
+        if nc <= 4:
+            return ks
+        if nc <= 8:
+            return [0, nc - 1, nc]
+        return [nc - 2, nc]
     return ks
 
 
@@ -94,3 +98,13 @@ def generic_replay_file(path):
     print('native     :', json.dumps(rec.get('native_replay'), indent=1)[:3000])
     print('model      :', json.dumps(rec.get('model'))[:2000])
     return 1 if rec.get('native_replay', {}).get('failing_input_found') else 3
+
+
+def segment_setup(t, this, task):
+    """a Segment / ConstIterator whose parent pointer designates a PPolyND object stored under the prefix par__"""
+    from ctypes_ import TD
+    parent = t.make_obj(TD('obj', cls='PPolyND', cfg=task.cfg), 'par__')
+    for f in ('parent_', 'ptr_'):
+        if f in this.fields:
+            this.fields[f].target = parent
+    return this
